@@ -96,6 +96,24 @@ def badFields (f : Fmt) (inp : KVs) (status : String) (out : KVs) : String :=
   let bad := (inp.zip out).filter fun p => !fieldEq f p.1.1 p.1.2 p.2.2
   if bad.isEmpty then "-" else ",".intercalate (bad.map (·.1.1))
 
+/-- why the model expects a decode error (first offending field and reason), for narrow known-finding signatures -/
+def decErrCause (rec : String) (f : Fmt) (kvs : KVs) : String :=
+  let firstZeroPeer := fun (fields : List String) =>
+    match kvs.find? (fun kv => fields.contains (lastSeg kv.1) && (tokElems kv.2).contains "p-") with
+    | some kv => kv.1 ++ ":zero-peer"
+    | none => "-"
+  match f with
+  | .json => match predictTaggedE Gen.table true rec kvs with | .error e => e | .ok _ => "-"
+  | .msgpack => match predictTaggedE Gen.table false rec kvs with | .error e => e | .ok _ => "-"
+  | .msgpackraft => match predictTaggedE Gen.table false rec kvs with | .error e => e | .ok _ => "-"
+  | .proto => firstZeroPeer ["Allocations"]
+  | .snapshot => firstZeroPeer ["Allocations"]
+  | .query =>
+    match firstZeroPeer ["UserAllocations"] with
+    | "-" => (match kvs.find? (fun kv => lastSeg kv.1 == "Origins" && (tokElems kv.2).any (·.startsWith "mn")) with
+              | some kv => kv.1 ++ ":no-p2p" | none => "-")
+    | c => c
+
 def answerRt (ws : List String) : String :=
   match ws with
   | rec :: fs :: rest =>
@@ -112,6 +130,7 @@ def answerRt (ws : List String) : String :=
           let modelled := match pred with | some r => resMatches r status out | none => false
           if !holdsAll cs then
             "propfail " ++ failedNames cs ++ " arm=" ++ arm ++ " fields=" ++ badFields f inp status out ++
+              (if status == "decerr" then " cause=" ++ decErrCause rec f inp else "") ++
               (if modelled then " as-modelled" else " unmodelled")
           else
           match pred with
